@@ -119,6 +119,7 @@ def runNode (ws : List String) : String :=
     | none => "bad-case"
   | ["serial", m, _] => runNodeSerial m
   | ["serialc", m] => runNodeSerial m   -- the same, with events cached before the listener call
+  | ["serialsparse", m] => runNodeSerial m   -- the same schedule space; the harness picks sparse arrivals
   | ["serialmany", m, _] => runNodeSerial m   -- the same, for many turns (the model has no counters to wrap)
   | ["stop", m, sc, p] => match p.toNat? with
     | some p => runNodeStop m sc p
